@@ -788,8 +788,24 @@ def d_economicvalue(ctx, inputs, paths, ref, opt):
 
 def d_rank(ctx, inputs, paths, ref, opt):
     metric, axis = opt
-    if len(inputs) != 2:
+    F = len(inputs)
+    if F == 1:
         return
+    if F == 3 and (metric, axis) == ("mae", "leadtime"):
+        # three inputs whose order changes cyclically with the lead time (A<B<C, C<A<B, B<C<A): a permutation that is not its own
+        # inverse, so "which input has rank j" and "which rank has input i" cannot be confused
+        base = [0.5, 1.0, 2.0]
+        new = []
+        for k, ai in enumerate(inputs):
+            c = ai.copy()
+            for pos in list(c.fields["fcst"]):
+                if pos in c.fields["obs"]:
+                    c.fields["fcst"][pos] = c.fields["obs"][pos] + base[(k + pos[1]) % 3] * (1 if (pos[0] + pos[2]) % 2 else -1)
+            new.append(c)
+        inputs = new
+        paths = write(inputs, "c16-rank3-%d" % len(inputs[0].fields["fcst"]))
+        ref = RD.RefData(inputs)
+        ctx.flag("rank-cycle")
     r, fig, out = render(paths + ["-m", metric, "-type", "rank", "-x", axis])
     if r.kind != "ok":
         return ctx.fail("rank:%s:%s" % (r.kind, r.site or "rejected"))
@@ -797,7 +813,7 @@ def d_rank(ctx, inputs, paths, ref, opt):
     ax = fig.axes[0]
     conts = {str(c.get_label()): [p.get_height() for p in c.patches] for c in ax.containers if isinstance(c, matplotlib.container.BarContainer)}
     nsl = len(ref.axis_values(axis))
-    y = [[RS.score(ref, metric, i, axis, k) for i in range(2)] for k in range(nsl)]
+    y = [[RS.score(ref, metric, i, axis, k) for i in range(F)] for k in range(nsl)]
     valid = [row for row in y if all(v is not None and not math.isnan(v) for v in row)]
     if not valid:
         return
@@ -805,25 +821,29 @@ def d_rank(ctx, inputs, paths, ref, opt):
     mean = sum(flat) / len(flat)
     std = math.sqrt(sum((v - mean) ** 2 for v in flat) / len(flat))
     positive = metric in ("corr",)
-    counts = {"a": [0, 0], "b": [0, 0], "none": [0, 0]}
+    counts = [[0] * F for _ in range(F)]       # counts[input][rank]
+    none = [0] * F
     for row in valid:
         if abs(row[0] - row[1]) < std / 50:
-            counts["none"][0] += 1
-            counts["none"][1] += 1
+            # the first two inputs are 'similar': the slice is attributed to nobody
+            for j in range(F):
+                none[j] += 1
             continue
-        first = 0 if row[0] < row[1] else 1            # smallest score first
-        order = [first, 1 - first]
+        if any(abs(row[a] - row[b]) < 1e-12 for a in range(F) for b in range(a + 1, F)):
+            return                               # exact ties among the other inputs: the order is not defined
+        order = sorted(range(F), key=lambda i: row[i])             # smallest score first
         if positive:
             order = order[::-1]
         for rank, who in enumerate(order):
-            counts["a" if who == 0 else "b"][rank] += 1
+            counts[who][rank] += 1
     n = float(len(valid))
-    exp = {inputs[0].name: [c / n for c in counts["a"]], inputs[1].name: [c / n for c in counts["b"]], "None": [c / n for c in counts["none"]]}
+    exp = {inputs[i].name: [c / n for c in counts[i]] for i in range(F)}
+    exp["None"] = [c / n for c in none]
     for label, e in exp.items():
         got = conts.get(label)
-        if not ctx.require(got is not None and len(got) == 2, "rank:series-missing", label=label, labels=sorted(conts)):
+        if not ctx.require(got is not None and len(got) == F, "rank:series-missing", label=label, labels=sorted(conts)):
             continue
-        ctx.require(all(abs(a - b) < 1e-9 for a, b in zip(e, got)), "rank:fractions", label=label, metric=metric, axis=axis, expected=e, actual=got)
+        ctx.require(all(abs(a - b) < 1e-9 for a, b in zip(e, got)), "rank:fractions", label=label, metric=metric, axis=axis, inputs=F, expected=e, actual=got)
 
 
 def _event(x, thr, bin_type):
@@ -1103,7 +1123,7 @@ def run(tier, only=None):
     st = explore.explore(harness, mode="full", params={"diagrams": diagrams}, repo_root=core.REPO, time_cap=(400 if tier == "quick" else 3000))
     return [core.Sub.from_e1("figures", st, bound="full product: %d diagram families x their option menus x {1,2,3} inputs x {partly missing, complete} dataset" % len(diagrams),
                              rule="one execution = one figure rendered by the driver; main series (by legend label) compared with reference statistics; non-trivial = more than one input",
-                             required_flags=tuple(f for d, f in (("reliability", "inset"), ("reliability", "outside-edges"), ("fss", "fss-scales"), ("impact", "impact")) if d in diagrams), wall=time.time() - t0)]
+                             required_flags=tuple(f for d, f in (("reliability", "inset"), ("reliability", "outside-edges"), ("fss", "fss-scales"), ("impact", "impact"), ("rank", "rank-cycle")) if d in diagrams), wall=time.time() - t0)]
 
 
 def replay(rec):
